@@ -1,0 +1,16 @@
+//go:build verif
+
+// Contracts for the deductive verification in /verif (comment-only; compiled code is unaffected).
+package walletmanager
+
+// C20: a response or an error for every request.
+//@ func (*Handler).Lock
+//@ requires h != nil
+//@ requires [unlocked] !prelocked && (forall k [48]byte :: !held[k])
+//@ modifies checkedset, deniedset, tokroot, db, held, prelocked
+//@ ensures [answer] (req == nil ==> result0 == nil && result1 != nil) && (req != nil ==> result0 != nil && result1 == nil)
+//@ func (*Handler).Unlock
+//@ requires h != nil
+//@ requires [unlocked] !prelocked && (forall k [48]byte :: !held[k])
+//@ modifies checkedset, deniedset, tokroot, db, held, prelocked
+//@ ensures [answer] (req == nil ==> result0 == nil && result1 != nil) && (req != nil ==> result0 != nil && result1 == nil)
